@@ -327,6 +327,14 @@ func ruleFutureOrder(c *Ctx, r *R) {
 			if idx >= 0 && idx < len(sel.States) && sel.States[idx].Dir == types.RecvOnly && isC(sel.States[idx].Chan) {
 				return ss(1), true
 			}
+			// an arm on a channel parameter that this caller binds to nil (f.await(nil)) is never taken
+			if idx >= 0 && idx < len(sel.States) {
+				if prm, ok := sel.States[idx].Chan.(*ssa.Parameter); ok {
+					if b, bound := chanParamBinding[prm]; bound && isNilConst(b) {
+						return 0, true
+					}
+				}
+			}
 			return 0, false
 		}
 		before := map[ssa.Instruction]StateSet{}
